@@ -38,7 +38,7 @@ ASSUMPTIONS = [
     "oracle = same Simulator call on copy.deepcopy(pristine model) with the row applied",
     "emulated core counts patch multiprocessing.cpu_count in the harness process only",
 ]
-N = {"quick": 72, "thorough": 1200}
+N = {"quick": 72, "thorough": 3000}
 MIN_NONTRIVIAL = {"quick": 12, "thorough": 200}
 WORKERS = {"quick": 8, "thorough": 8}
 CASE_TIMEOUT = 900
